@@ -12,7 +12,7 @@ RULE = ('E1 choice-tree enumeration of decks (expression trees with <=k leaves o
         'literals, macrobody and facet literals, #( ) at inner nodes, #n of earlier cells, '
         'importances); a state is non-trivial when the converter wrote at least one non-virtual '
         'volume and the reference has points both inside and outside the probed cell; distinct = '
-        'distinct deck text')
+        'distinct deck text; additional scenarios beyond the small scope: slab decks of 12-130 cells, N-gon prisms (N = 12 ... 120), unions of 40-300 slabs with their complement, planes at the loci of the converter\'s helper planes, importances on data cards / fractional')
 ASSUMPTIONS = [
     'MCNP/TRIPOLI-4 semantics tables of DESIGN.md section 5',
     'PEG shim replaces the third-party TatSu parser object only',
